@@ -867,7 +867,7 @@ Proof.
       - rewrite argnames_eq, app_length. unfold Qn. rewrite map_length. lia.
       - rewrite fill_pos_length by lia. destruct OFF as [O|O].
         + rewrite O, argnames_eq, app_length. unfold Qn, Ksn. rewrite !map_length. lia.
-        + rewrite O. simpl. unfold off. destruct (_ && _); lia.
+        + rewrite O. simpl. unfold off. destruct ((0 <? npo s) && (npo s <? length (all_args s))); lia.
       - intros i L1 L2. rewrite nth_fill_pos.
         destruct OFF as [O|O]; [|rewrite O in L2; simpl in L2; lia]. rewrite O.
         replace (npo s + i <? Nat.min k (length pos)) with false; [reflexivity|].
